@@ -70,7 +70,7 @@ def strategy(tier):
     # weights: receives and runs more frequent so that hand-off situations are common; bulk enqueues and completed
     # receives make long backlogs and long runs of deliveries reachable within 40 operations
     op = st.sampled_from(OPS + ["recv", "run", "enq1", "cancel_recv", "recvrun", "recvrun", "enq12", "tick", "tick"])
-    return st.builds(lambda ops: {"ops": ops}, st.lists(op, min_size=6, max_size=40))
+    return st.builds(lambda ops, second: {"ops": ops, "second_loop": second}, st.lists(op, min_size=6, max_size=40), st.sampled_from([False, False, False, True]))
 
 
 def enumerate_cases(tier):
@@ -78,6 +78,10 @@ def enumerate_cases(tier):
     for length in range(0, n + 1):
         for ops in itertools.product(OPS, repeat=length):
             yield {"ops": list(ops)}
+    # every history of length <= 4 again under the second event loop of the process
+    for length in range(0, 5):
+        for ops in itertools.product(OPS, repeat=length):
+            yield {"ops": list(ops), "second_loop": True}
     # size-directed histories (within 40 operations / 40 elements): a backlog of every size, delivered completely; the
     # k-th consecutive delivery from the buffer cancelled right after it was started; a waiting consumer handed the first
     # of N elements and cancelled before it wakes
@@ -266,6 +270,19 @@ def run_case(case) -> Outcome:
         except RuntimeError:
             pass
 
+    if case.get("second_loop"):
+        # the history runs under the SECOND event loop of the process: an earlier loop (closed by now) served another queue
+        async def primer():
+            q0 = AsyncQueue()
+            t = asyncio.get_running_loop().create_task(q0.__anext__())
+            await vloop.settle()
+            q0.enqueue(0)
+            await vloop.settle()
+            q0.finish()
+            return t.result()
+
+        vloop.run(lambda loop: primer())
+        log["classes"].add("second-event-loop")
     res = vloop.run(lambda loop: main())
     if res.outcome == "hang":
         out.violate("2", "C17.2/driver-hang", "loop quiescent while driver unfinished")
